@@ -139,13 +139,24 @@ def ops(rng, names_for, span):
     val = round(rng.uniform(-5, 5), 3)
     seq = [round(rng.uniform(0, 9), 2) for _ in span]
     kind = rng.choice(['attr-seq', 'attr-scalar', 'attr-pos', 'item-seq', 'item-pos', 'label', 'slice', 'replace', 'read', 'solve', 'values', 'introspect', 'copy-roundtrip',
-                       'attr-seq-misshapen', 'item-seq-misshapen', 'attr-seq-held'])
+                       'attr-seq-misshapen', 'item-seq-misshapen', 'attr-seq-held', 'instance-alias-copy'])
     if kind in ('attr-seq-misshapen', 'item-seq-misshapen'):
         # a sequence that does not fit (too short, too long, one element, nested): refused the same way through either spelling
         bad = rng.choice([[7.0], list(seq) + [1.0], list(seq)[:-1], [list(seq)], [], (1.0, 2.0), range(len(span) + 2)])
         if kind == 'attr-seq-misshapen':
             return (kind, v, repr(bad)), lambda m, nm: setattr(m, nm(v), bad)
         return (kind, v, repr(bad)), lambda m, nm: m.__setitem__(nm(v), bad)
+    if kind == 'instance-alias-copy':
+        # an alias declared on the object itself (not on its class) belongs to the object: a copy has it too
+        def g(m, nm):
+            if isinstance(m.__dict__.get('aliases'), dict):
+                m.aliases['InstAl'] = v
+                try:
+                    return float(m.copy()['InstAl'][i])
+                finally:
+                    m.aliases.pop('InstAl', None)       # (the rest of this history works with the declared map)
+            return float(m.copy()[v][i])
+        return (kind, v, i), g
     if kind == 'attr-seq-held':
         # what a whole-series write does to an array handed out earlier is the same through either spelling
         def f(m, nm):
@@ -401,12 +412,12 @@ def run_shard(ctx):
             check_map(ctx, Canon, aliases, preferred, rng, ctx.pick(6, 10))
 
 
-def traced_aliases(ctx, Canon, rng):
+def traced_aliases(ctx, Canon, rng, every=False):
     """Aliases next to the tracer extension: asking for a trace of a variable by its alias (or by an alias of an alias) is asking
     for a trace of that variable - same solution, same snapshots."""
     from fsic.extensions import AliasMixin, TracerMixin
     for k, aliases in enumerate([{'GDP': 'Y'}, {'GDP': 'Y', 'Out': 'GDP'}, {'Cons': 'C', 'Gov': 'G', 'GDP': 'Y'}, {'Gov': 'Out', 'Out': 'GDP', 'GDP': 'Y'}]):
-        if not ctx.mine(k):
+        if not every and not ctx.mine(k):
             continue
         TA = type('TA', (AliasMixin, TracerMixin, Canon), {'ALIASES': dict(aliases)})
         TC = type('TC', (TracerMixin, Canon), {})
